@@ -98,7 +98,7 @@ macro_rules! multi_exp_k {
 }
 //@ name=c09_k8_multi_exp_k5 prop=C09,C11,C15 tier=quick profile=k8 funcs="MultiExponentiateBoundedExp (array and slice),multi_exponentiate_montgomery_form_array,multi_exponentiate_montgomery_form_slice,multi_exponentiate_montgomery_form_internal" bound="u8 words, 1 limb, 2 bases, k=5: m=S(1)^sign|1, bases S(1), every pair of 8-bit exponents: equals the product of the single powers" free_bits=23
 multi_exp_k!(c09_k8_multi_exp_k5, 5);
-//@ name=c09_k8_multi_exp_k2 prop=C09,C11,C15 tier=quick profile=k8 funcs="MultiExponentiateBoundedExp (array and slice),multi_exponentiate_montgomery_form_internal" bound="u8 words, 1 limb, 2 bases, k=2" free_bits=23
+//@ name=c09_k8_multi_exp_k2 prop=C09,C11,C15 tier=quick profile=k8 funcs="MultiExponentiateBoundedExp (array and slice),multi_exponentiate_montgomery_form_internal" bound="u8 words, 1 limb, 2 bases, k=2" free_bits=23 core=C15
 multi_exp_k!(c09_k8_multi_exp_k2, 2);
 //@ name=c09_k8_multi_exp_k8 prop=C09,C11,C15 tier=thorough profile=k8 funcs="MultiExponentiateBoundedExp (array and slice)" bound="u8 words, 1 limb, 2 bases, k=8" free_bits=23
 multi_exp_k!(c09_k8_multi_exp_k8, 8);
